@@ -47,7 +47,10 @@ Judge(r) ==
      ELSE IF D6 \in sdev \/ D7b \in sdev THEN Verdict(r.rid, "C06", "na", "D6 / D7b, see C01")
      ELSE Verdict(r.rid, "C06", "reject", <<r.sid, why>>)
   \* ---- C05 (dynamic half): the file's own prologue provides every configured hook
-  /\ IF ~r.absent THEN Verdict(r.rid, "C05", "na", r.sid)
+  /\ IF ~r.absent THEN
+       \* a hook object that exists before the file is loaded must not be replaced by the file's prologue
+       IF r.outout.k # "syntax" /\ ~r.ns_preserved THEN Verdict(r.rid, "C05", "reject", "the file replaced an existing hook object")
+       ELSE Verdict(r.rid, "C05", IF Len(r.hooks) > 0 THEN "ok" ELSE "ok0", r.sid)
      ELSE IF ~r.ns_exists THEN Verdict(r.rid, "C05", "reject", "the prologue did not install the hook namespace")
      ELSE IF {r.ns_keys[i] : i \in 1..Len(r.ns_keys)} # {r.alldsts[i] : i \in 1..Len(r.alldsts)}
           THEN Verdict(r.rid, "C05", "reject", <<"prologue defines", r.ns_keys, "configured", r.alldsts>>)
